@@ -29,7 +29,7 @@ PROPS["C19"] = dict(
                "advances the counter by the candidates tried. Kani on the real code with a stub hasher: the same contracts bit-precisely "
                "(byte slicing, little-endian conversion, masks) with the count bounded, with counterexamples; validity of drawn elements "
                "(from_random_bytes of the three base fields, and of the quadratic / cubic extensions of the 64-bit field, accepts exactly "
-               "canonical encodings); the integer encoding absorbed by merge_with_int of the three Rescue hashers is injective; hash_elements of the three Rescue hashers - what turns the seed into the initial coin state - equals the documented sponge with its length / padding domain separation (shared with C11; bounded in list length), so that seeds of different length or content are absorbed differently.",
+               "canonical encodings); the integer encoding absorbed by merge_with_int of the three Rescue hashers is injective; hash_elements of the three Rescue hashers - what turns the seed into the initial coin state - equals the documented sponge with its length / padding domain separation (shared with C11; bounded in list length), so that seeds of different length or content are absorbed differently; for the byte-oriented hashers (Blake3_256 / Blake3_192 / Sha3_256) merge_with_int - the nonce / counter absorption - is compared with hash(seed || le64(value)) by the stand-in hash_native (shared with C11).",
     level_note="The Kani harnesses are bounded in the requested count of draw_integers (<= 3) and the rejection loop of draw (<= 2 "
                "rejections); the Verus unit is not, but replaces three byte-slicing expressions by named prelude functions (listed "
                "under coverage.extraction). Trusted: determinism of safe Rust. Extension-field from_random_bytes of the 62- and 128-bit "
